@@ -1039,6 +1039,9 @@ class Interp:
         return m(node, env)
 
     def ex_Constant(self, node, env):
+        if isinstance(node.value, bytes) and getattr(self, 'bytes_as_latin1_str', False):
+            # byte strings modelled as strings of code points 0..255 (the contract chooses this model)
+            return node.value.decode('latin-1')
         return node.value
 
     def ex_Name(self, node, env):
